@@ -9,7 +9,7 @@ Nothing here decides what SHOULD happen: the expected binding, the logged parame
 result is logged and what reaches the caller all come from the record printed by TLC.  Python only instantiates the
 abstract values with witness objects (identity equality) and compares.
 """
-import sys, os, json, re, inspect, zlib
+import sys, os, json, re, inspect, zlib, functools
 
 RESERVED = {"task_uuid", "task_level", "timestamp", "action_type", "action_status"}
 MODNAME = "c18mod"
@@ -24,7 +24,7 @@ def parse_line(line):
           .replace("TRUE", "true").replace("FALSE", "false"))
     s = re.sub(r'(\w+) \|->', r'"\1":', s)
     r = json.loads(s)
-    if r[0] != "CASE" or len(r) != 9:
+    if r[0] != "CASE" or len(r) != 12:
         raise ValueError("not a CASE record: %r" % (line[:200],))
     return r
 
@@ -59,6 +59,14 @@ def _hook(loc):
     return CTL["R"]
 
 
+def _whook(loc):
+    """Called first thing by a harness-made wrapper (target kinds inject / renamed / fewer) with its own locals."""
+    EVENTS.append(("wcall", loc))
+
+
+CONN = W("injected-connection")
+
+
 P = [W("positional-%d" % i) for i in range(1, 8)]
 KWV = {}
 DEF = {}
@@ -81,7 +89,7 @@ class _D(dict):
         return dflt(k)
 
 
-def source(sig, meth):
+def param_list(sig):
     parts = []
     n = len(sig)
     has_vp = any(p[0] == "VP" for p in sig)
@@ -98,7 +106,11 @@ def source(sig, meth):
             parts.append(name + ("=_D[%r]" % name if d else ""))
         if k == "PO" and (i + 1 == n or sig[i + 1][0] != "PO"):
             parts.append("/")
-    head = "def target(%s):\n" % ", ".join(parts)
+    return ", ".join(parts)
+
+
+def source(sig, meth):
+    head = "def target(%s):\n" % param_list(sig)
     body = '    "the docstring of target"\n    return _hook(locals())\n'
     if meth:
         return "class Klass:\n" + "".join("    " + l + "\n" for l in (head + body).splitlines())
@@ -114,19 +126,63 @@ def build(sig, meth):
     return ns["target"], None, src
 
 
-def expected_locals(sig, b, posvals):
+def wrapper_source(tk, sig, osig):
+    """The callable given to log_call for the target kinds made of a functools.wraps wrapper around `inner`."""
+    if tk == "inject":
+        params, fwd = "*wargs, **wkwargs", "_CONN, *wargs, **wkwargs"
+    else:
+        own = set(p[2] for p in osig)
+        fwd = []
+        for k, d, name in sig:
+            w = "w_" + name
+            if w not in own:
+                continue                # "fewer": left to the function's own default
+            fwd.append({"PO": w, "PK": w, "VP": "*" + w, "KO": "%s=%s" % (name, w), "VK": "**" + w}[k])
+        params, fwd = param_list(osig), ", ".join(fwd)
+    return "@functools.wraps(inner)\ndef target(%s):\n    _whook(locals())\n    return inner(%s)\n" % (params, fwd)
+
+
+def build_wrapper(tk, sig, osig, inner, log_call):
+    if tk == "stacked":
+        return log_call(inner), "target = log_call(target)\n"
+    src = wrapper_source(tk, sig, osig)
+    ns = {"__name__": MODNAME, "_whook": _whook, "_D": _D(), "_CONN": CONN, "inner": inner, "functools": functools}
+    exec(compile(src, "<c18 wrapper %s>" % tk, "exec"), ns)
+    return ns["target"], src
+
+
+def inner_arguments(tk, sig, osig, exp_own, posvals):
+    """The argument list the callable passes to the function underneath (mirror of wrapper_source)."""
+    if tk == "inject":
+        return [CONN] + list(posvals), {}
+    if tk in ("renamed", "fewer"):
+        pos, kwmap = [], {}
+        for k, d, name in osig:
+            v = exp_own[name][1]
+            if k in ("PO", "PK"):
+                pos.append(v)
+            elif k == "VP":
+                pos.extend(v)
+            elif k == "KO":
+                kwmap[name[2:]] = v
+        return pos, kwmap
+    return list(posvals), {}
+
+
+def expected_locals(sig, b, posvals, kwmap=None):
     exp = {}
+    kwmap = kwmap or {}
     for (k, d, name), (t, lo, hi, ks) in zip(sig, b):
         if t == "pos":
             exp[name] = ("one", posvals[lo - 1])
         elif t == "kw":
-            exp[name] = ("one", kwv(name))
+            exp[name] = ("one", kwmap.get(name, kwv(name)))
         elif t == "def":
             exp[name] = ("one", dflt(name))
         elif t == "vp":
             exp[name] = ("tuple", tuple(posvals[lo - 1:hi]) if hi >= lo else ())
         elif t == "vk":
-            exp[name] = ("dict", {x: kwv(x) for x in ks})
+            exp[name] = ("dict", {x: kwmap.get(x, kwv(x)) for x in ks})
         else:
             raise ValueError("bad bound value %r" % t)
     return exp
@@ -170,6 +226,7 @@ def observe(fn, inst, posvals, kws, fx, R, X):
         o["exc"] = e
     o["events"] = list(EVENTS)
     o["calls"] = [e[1] for e in EVENTS if e[0] == "call"]
+    o["wcalls"] = [e[1] for e in EVENTS if e[0] == "wcall"]
     o["msgs"] = [e[1] for e in EVENTS if e[0] == "msg"]
     return o
 
@@ -178,6 +235,7 @@ def describe(o):
     d = {"returned": repr(o["ret"]) if o["exc"] is None else None,
          "raised": None if o["exc"] is None else "%s: %s" % (type(o["exc"]).__name__, o["exc"]),
          "body_calls": [{k: repr(v) for k, v in c.items()} for c in o["calls"]],
+         "wrapper_calls": [{k: repr(v) for k, v in c.items()} for c in o.get("wcalls", [])],
          "messages": [{k: repr(v) for k, v in m.items() if k not in ("timestamp", "task_uuid")} for m in o["msgs"]],
          "order": [e[0] for e in o["events"]]}
     return d
@@ -252,8 +310,163 @@ WITNESS = [  # (R, X) variants; R/X objects are created once so that identity is
 ]
 
 
+def norm_events(events):
+    """Events of a callable, comparable between a run alone and a run inside log_call's action."""
+    res = []
+    for kind, d in events:
+        if kind == "msg":
+            res.append((kind, {k: v for k, v in d.items() if k not in ("timestamp", "task_uuid", "task_level")}))
+        else:
+            res.append((kind, dict(d)))
+    return res
+
+
+def judge_kind(o, u, ok, exp_own, osig, tail, R, X):
+    """Target kinds other than the plain function: clauses broken by observation `o` of log_call(callable) given observation
+    `u` of the callable alone (same arguments), the expected binding against the callable's OWN signature and the
+    specification's (start, end, return) events."""
+    if not ok:
+        if not isinstance(o["exc"], TypeError) or o["calls"] or o["wcalls"]:
+            return ["unbindable-call-raises-TypeError"]
+        return []
+    fails = []
+    start_ev, end_ev, ret_ev = tail
+    if ret_ev["e"] == "return":
+        if o["exc"] is not None:
+            fails.append("same-result(raised instead)")
+        elif o["ret"] is not R:
+            fails.append("same-result")
+    elif ret_ev["what"] == "X":
+        if o["exc"] is not X:
+            fails.append("same-exception-object")
+    else:                                   # the callable's own TypeError: a new object each run, same class and text
+        if not isinstance(o["exc"], TypeError) or o["exc"] is X or str(o["exc"]) != str(u["exc"]):
+            fails.append("same-exception(TypeError raised inside the callable)")
+    ev = o["events"]
+    if len(ev) < 2 or ev[0][0] != "msg" or ev[-1][0] != "msg":
+        fails.append("one-action-logged")
+        return fails
+    st, en = ev[0][1], ev[-1][1]
+    sl, el = list(st.get("task_level", [0])), list(en.get("task_level", [0]))
+    if st.get("action_status") != "started" or en.get("action_status") not in ("succeeded", "failed") or \
+            st.get("task_uuid") != en.get("task_uuid") or sl[-1:] != [1] or el[:-1] != sl[:-1] or el[-1] < 2:
+        fails.append("one-action-logged")
+        return fails
+    # inside the action the callable does exactly what it does alone: called once, same arguments, same messages of its own
+    if norm_events(ev[1:-1]) != norm_events(u["events"]):
+        fails.append("callable-called-once-with-same-arguments-inside-the-action")
+    if st.get("action_type") != {"module.name": MODNAME + ".target", "given": GIVEN_TYPE}[start_ev["type"]]:
+        fails.append("action-type")
+    names = set(p[2] for p in osig)
+    logged = set(start_ev["fields"])
+    if (set(st) & names) != logged:
+        fails.append("start-fields(parameters of the callable log_call was given)")
+    elif not all(same_value(exp_own[nm], st[nm], False) for nm in logged):
+        fails.append("start-values")
+    if en["action_status"] != end_ev["status"]:
+        fails.append("end-status")
+    if end_ev["status"] == "succeeded":
+        if end_ev["result"]:
+            if "result" not in en or en["result"] is not R:
+                fails.append("end-result")
+        elif "result" in en:
+            fails.append("end-result(include_result=False)")
+    return fails
+
+
+def run_kind_case(r, variants, cache, log_call, out, detail=False):
+    _, sig, (np_, kws, meth), (given, ianames, ir, at, fx, bare), Bw, reasons, dev, obs, tail, tk, osig, innerw = r
+    if meth or given or dev != ["-"] or obs[0]["e"] == "raise":
+        raise ValueError("target kind %s outside its domain: %r" % (tk, r))
+    ok = bool(Bw)
+    b = Bw[0] if ok else None
+    fkey = (json.dumps(sig), tk)
+    if cache.get("fkey") != fkey:
+        cache.clear()
+        cache["fkey"] = fkey
+        raw, _, src = build(sig, False)
+        w, wsrc = build_wrapper(tk, sig, osig, raw, log_call)
+        cache["f"] = (raw, w, src + wsrc)
+        cache["deco"] = {}
+    raw, w, src = cache["f"]
+    okey = (ir, at, bare)
+    if okey not in cache["deco"]:
+        kwargs = {}
+        if not ir:
+            kwargs["include_result"] = False
+        if at:
+            kwargs["action_type"] = GIVEN_TYPE
+        try:
+            deco = log_call(w) if bare else log_call(**kwargs)(w)
+            derr = None
+        except Exception as e:
+            deco, derr = None, e
+        meta = []
+        if deco is not None:
+            if getattr(deco, "__name__", None) != getattr(w, "__name__", None):
+                meta.append("keeps-name")
+            if getattr(deco, "__doc__", None) != getattr(w, "__doc__", None):
+                meta.append("keeps-docstring")
+            try:
+                if inspect.signature(deco) != inspect.signature(w):
+                    meta.append("keeps-signature")
+            except Exception:
+                meta.append("keeps-signature")
+        cache["deco"][okey] = (deco, derr, meta, kwargs)
+    deco, derr, meta, kwargs = cache["deco"][okey]
+    base = {"sig": sig, "call": [np_, kws, meth], "opt": [given, ianames, ir, at, fx, bare], "source": src, "kind": tk,
+            "decorator": "log_call" if bare else "log_call(%s)" % ", ".join("%s=%r" % kv for kv in sorted(kwargs.items())),
+            "expected_binding": b if ok else "TypeError " + ",".join(reasons)}
+    results = []
+    if derr is not None:
+        results.append(("violation", ["decoration-succeeds"], {"decoration": repr(derr)}))
+        return base, results
+    if meta:
+        results.append(("violation", meta, {"name": getattr(deco, "__name__", None), "doc": getattr(deco, "__doc__", None),
+                                           "signature": str(inspect.signature(deco)), "wrapped_signature": str(inspect.signature(w))}))
+    posvals = P[:np_]
+    for v in variants:
+        R, X = WITNESS[v]
+        out["runs"] += 1
+        # --- the callable alone against the specification (disagreement = machinery failure)
+        u = observe(w, None, posvals, kws, fx, R, X)
+        mach = None
+        exp_own = None
+        if not ok:
+            if not isinstance(u["exc"], TypeError) or u["events"]:
+                mach = "spec says the %s callable rejects the call (%s), Python: %s" % (tk, ",".join(reasons), describe(u))
+        else:
+            exp_own = expected_locals(osig, b, posvals)
+            if tk != "stacked" and (len(u["wcalls"]) != 1 or not same_locals(exp_own, u["wcalls"][0])):
+                mach = "spec binding of the %s callable %s, Python: %s %s" % (tk, b, u["wcalls"], describe(u))
+            elif innerw:
+                ipos, kwmap = inner_arguments(tk, sig, osig, exp_own, posvals)
+                exp_in = expected_locals(sig, innerw[0], ipos, kwmap)
+                if len(u["calls"]) != 1 or not same_locals(exp_in, u["calls"][0]):
+                    mach = "spec inner binding %s, Python: %s" % (innerw[0], describe(u))
+                elif fx == "ret" and (u["exc"] is not None or u["ret"] is not R):
+                    mach = "%s callable did not return the witness: %s" % (tk, describe(u))
+                elif fx == "raise" and u["exc"] is not X:
+                    mach = "%s callable did not raise the witness: %s" % (tk, describe(u))
+            elif not isinstance(u["exc"], TypeError) or u["exc"] is X or u["calls"]:
+                mach = "spec says the %s callable raises TypeError when it calls the function, Python: %s" % (tk, describe(u))
+        if mach:
+            results.append(("machinery", [mach], {"variant": v}))
+            continue
+        o = observe(deco, None, posvals, kws, fx, R, X)
+        fails = judge_kind(o, u, ok, exp_own, osig, tail, R, X)
+        d = {"variant": v, "decorated": describe(o), "plain": describe(u)}
+        if fails:
+            results.append(("violation", fails, d))
+        elif detail:
+            results.append(("ok", [], d))
+    return base, results
+
+
 def run_case(r, variants, cache, log_call, out, detail=False):
-    _, sig, (np_, kws, meth), (given, ianames, ir, at, fx, bare), Bw, reasons, dev, obs, tail = r
+    if r[9] != "plain":
+        return run_kind_case(r, variants, cache, log_call, out, detail)
+    _, sig, (np_, kws, meth), (given, ianames, ir, at, fx, bare), Bw, reasons, dev, obs, tail = r[:9]
     ok = bool(Bw)
     b = Bw[0] if ok else None
     names = [p[2] for p in sig]
@@ -261,7 +474,7 @@ def run_case(r, variants, cache, log_call, out, detail=False):
     has_vk = any(p[0] == "VK" for p in sig)
     refused = obs[0]["e"] == "raise"
     # --- the real function (cached per signature)
-    fkey = (json.dumps(sig), meth)
+    fkey = (json.dumps(sig), meth, "plain")
     if cache.get("fkey") != fkey:
         cache.clear()
         cache["fkey"] = fkey
@@ -298,7 +511,7 @@ def run_case(r, variants, cache, log_call, out, detail=False):
                 meta.append("keeps-signature")
         cache["deco"][okey] = (deco, derr, dklass, meta, kwargs)
     deco, derr, dklass, meta, kwargs = cache["deco"][okey]
-    base = {"sig": sig, "call": [np_, kws, meth], "opt": [given, ianames, ir, at, fx, bare], "source": src,
+    base = {"sig": sig, "call": [np_, kws, meth], "opt": [given, ianames, ir, at, fx, bare], "source": src, "kind": "plain",
             "decorator": "log_call" if bare else "log_call(%s)" % ", ".join("%s=%r" % kv for kv in sorted(kwargs.items())),
             "expected_binding": b if ok else "TypeError " + ",".join(reasons)}
     results = []
@@ -387,9 +600,9 @@ def main(argv):
     recs = []
     for line in inp["lines"]:
         recs.append((line, parse_line(line)))
-    recs.sort(key=lambda lr: (json.dumps(lr[1][1]), lr[1][2][2], json.dumps(lr[1][3]), json.dumps(lr[1][2])))
+    recs.sort(key=lambda lr: (json.dumps(lr[1][1]), lr[1][9], lr[1][2][2], json.dumps(lr[1][3]), json.dumps(lr[1][2])))
     out = {"n": 0, "runs": 0, "machinery": [], "violations": [], "known": {}, "known_examples": {}, "n_violations": 0,
-           "nontrivial": 0, "bound": 0, "typeerror": 0, "refused": 0, "ok_detail": []}
+           "nontrivial": 0, "bound": 0, "typeerror": 0, "refused": 0, "ok_detail": [], "kinds": {}}
     cache = {}
     for line, r in recs:
         out["n"] += 1
@@ -397,6 +610,7 @@ def main(argv):
             variants = [zlib.crc32(line.encode()) % len(WITNESS)]
         else:
             variants = inp["variants"]
+        out["kinds"][r[9]] = out["kinds"].get(r[9], 0) + 1
         if r[7][0]["e"] == "raise":
             out["refused"] += 1
         elif r[4]:
